@@ -57,9 +57,15 @@ type hbInterp struct {
 	spawnArgs []string // per argument of the go call: "" or the channel value passed
 	stopParam string   // name of the channel parameter of the spawned function
 	depth     int
+	timerFns  []*ast.FuncLit // closures handed to time.AfterFunc
+	guardVar  string         // local that holds the result of the timer's Stop()
+	guarded   bool           // on this path the result of Stop() has been tested and was true
 }
 
 func (in *hbInterp) emit(kind, detail string) {
+	if (kind == "send" || kind == "store") && in.guarded {
+		detail += " [stopped]"
+	}
 	h := map[string]int{}
 	for k, v := range in.held {
 		h[k] = v
@@ -183,6 +189,13 @@ func (in *hbInterp) walkStmt(fr *hbFrame, st ast.Stmt, defers *[]string) {
 			})
 		}
 	case *ast.ExprStmt:
+		if c, ok := x.X.(*ast.CallExpr); ok {
+			if sel, ok := c.Fun.(*ast.SelectorExpr); ok && sel.Sel.Name == "Stop" && len(c.Args) == 0 {
+				in.walkExpr(fr, sel.X)
+				in.emit("stop", "discarded")
+				return
+			}
+		}
 		in.walkExpr(fr, x.X)
 	case *ast.AssignStmt:
 		for _, l := range x.Lhs {
@@ -200,6 +213,13 @@ func (in *hbInterp) walkStmt(fr *hbFrame, st ast.Stmt, defers *[]string) {
 			var l ast.Expr
 			if len(x.Lhs) == len(x.Rhs) {
 				l = x.Lhs[i]
+			}
+			if c, ok := hbUnparen(r).(*ast.CallExpr); ok {
+				if sel, ok := c.Fun.(*ast.SelectorExpr); ok && sel.Sel.Name == "Stop" && len(c.Args) == 0 {
+					if id, ok := l.(*ast.Ident); ok && id.Name != "_" {
+						in.guardVar = id.Name
+					}
+				}
 			}
 			lch := ""
 			if l != nil {
@@ -245,10 +265,35 @@ func (in *hbInterp) walkStmt(fr *hbFrame, st ast.Stmt, defers *[]string) {
 	case *ast.IfStmt:
 		in.walkStmt(fr, x.Init, defers)
 		in.walkExpr(fr, x.Cond)
+		// the result of Stop(): `if !stopped { return }` guards what follows, `if stopped { … }` guards its body
+		pos, neg := false, false
+		if in.guardVar != "" {
+			switch c := hbUnparen(x.Cond).(type) {
+			case *ast.Ident:
+				pos = c.Name == in.guardVar
+			case *ast.UnaryExpr:
+				if id, ok := hbUnparen(c.X).(*ast.Ident); ok && c.Op == token.NOT {
+					neg = id.Name == in.guardVar
+				}
+			}
+		}
+		was := in.guarded
+		if pos {
+			in.guarded = true
+		}
 		in.branch(fr, x.Body.List, defers)
+		in.guarded = was
+		if neg && elTerminates(x.Body) {
+			in.guarded = true
+		}
 		switch e := x.Else.(type) {
 		case *ast.BlockStmt:
+			w2 := in.guarded
+			if neg {
+				in.guarded = true
+			}
 			in.branch(fr, e.List, defers)
+			in.guarded = w2
 		case *ast.IfStmt:
 			in.walkStmt(fr, e, defers)
 		}
@@ -505,6 +550,13 @@ func (in *hbInterp) call(fr *hbFrame, c *ast.CallExpr) {
 		}
 	case name == "verifYield":
 		return
+	case name == "time.AfterFunc" && len(c.Args) == 2:
+		in.walkExpr(fr, c.Args[0])
+		if fl, ok := c.Args[1].(*ast.FuncLit); ok {
+			in.timerFns = append(in.timerFns, fl)
+		}
+		in.emit("arm", "")
+		return
 	case strings.HasPrefix(name, "atomic.Add") && len(c.Args) >= 1:
 		in.emit("atomic", exprString(hbStripAddr(c.Args[0])))
 		return
@@ -517,6 +569,18 @@ func (in *hbInterp) call(fr *hbFrame, c *ast.CallExpr) {
 				return
 			}
 		}
+	}
+	if sel, ok := c.Fun.(*ast.SelectorExpr); ok && len(c.Args) == 0 && sel.Sel.Name == "Stop" {
+		in.walkExpr(fr, sel.X)
+		in.emit("stop", "used")
+		return
+	}
+	if sel, ok := c.Fun.(*ast.SelectorExpr); ok && (sel.Sel.Name == "ResultError" || sel.Sel.Name == "ResultSuccess" || sel.Sel.Name == "Publish") {
+		for _, a := range c.Args {
+			in.walkExpr(fr, a)
+		}
+		in.emit("send", sel.Sel.Name)
+		return
 	}
 	if sel, ok := c.Fun.(*ast.SelectorExpr); ok && sel.Sel.Name == "SetData" {
 		for _, a := range c.Args {
